@@ -133,6 +133,7 @@ class C02(HistoryProperty):
         if rng.random() < 0.002:
             return self._long_sweep_case(rng)
         cfg = gen.swarm_cfg(rng, off=("alloptions", "shape_change", "dangling"), on=("dsclass", "fapp"))
+        cfg["posonly_params"] = rng.random() < 0.4  # dataset functions with positional-only parameters
         cfg["user_evaluatables"] = rng.random() < 0.4  # user-defined Evaluatable subclasses in the place of plain Options
         cfg["odd_returns"] = rng.random() < 0.3  # bodies returning a container that holds something uncopyable
         cfg["mutating_bodies"] = rng.random() < 0.4  # bodies that work in place on a section / list taken from the options
